@@ -18,11 +18,15 @@ def S(pid, flags="", box=(), h=()):
 
 
 D, T, K = {"k": "D"}, {"k": "T"}, {"k": "K"}
+# other public ways to ask for a drain: supervisor.drain_children(), drain_and_wait(Some(1s)), drain_and_wait(None)
+# (the *_and_wait futures are polled once - that performs the drain - and must be complete once the actor is Stopped)
+Dc, Dt, Dw = {"k": "D", "v": "c"}, {"k": "D", "v": "t"}, {"k": "D", "v": "w"}
+DRAINS = [D, Dc, Dt, Dw]
 
 
 def rust_call(c):
     if c["k"] != "S":
-        return c["k"]
+        return c["k"] + c.get("v", "")
     return "S({},{},[{}],[{}])".format(c["pid"], c["flags"] or "-", ",".join(rust_call(x) for x in c["box"]),
                                        ",".join(rust_call(x) for x in c["h"]))
 
@@ -53,8 +57,8 @@ def rust_line(acts):
             out.append(f"{a[0]} {rust_call(a[1])}")
         elif a[0] in ("rel", "ps", "mode"):
             out.append(f"{a[0]} {a[1]}")
-        elif a[0] == "go":
-            out.append("go")
+        elif a[0] in ("go", "tick"):
+            out.append(a[0])
         else:
             out.append("run")
     return " ; ".join(out)
@@ -164,7 +168,11 @@ def gen_exhaustive(n_senders, n_drains, variant, pre=True, blocks=(), ps=()):
             elif tok[0] == "rel":
                 acts.append(("rel", sender_pid[tok[1]]))
             elif tok[0] == "drain":
-                acts.append(("do", D))
+                if variant == "dvar":
+                    # rotate through the other public drain entry points
+                    acts.append(("do", [Dc, Dt, Dw][sum(1 for a in acts if a[0] == "do" and a[1].get("k") == "D") % 3]))
+                else:
+                    acts.append(("do", D))
             elif tok[0] == "block":
                 # the string "run" as a block = let the actor run at this point
                 acts.append(("run",) if blocks[tok[1]] == "run" else ("do", blocks[tok[1]]))
@@ -189,11 +197,11 @@ def gen_random(rng, profile):
     def wrong_flag():
         # wrong-typed send through one of the public entry points (send_message / cast / call,
         # on the cell or on an ActorRef::<Wrong>::from(cell))
-        return "w" + str(rng.randrange(0, 10))
+        return "w" + rng.choice("0123456789dr")
 
     def via_flag():
         # correctly typed sends mostly through ActorCell::send_message, sometimes cast / call
-        return str(rng.randrange(1, 10)) if rng.random() < 0.3 else ""
+        return rng.choice("123456789dr") if rng.random() < 0.35 else ""
 
     def leaf_call(depth):
         r = rng.random()
@@ -203,7 +211,7 @@ def gen_random(rng, profile):
                          [leaf_call(depth + 1)] if rng.random() < 0.5 else [])
             return S(new_pid(), wrong_flag() if rng.random() < 0.06 else via_flag())
         if r < 0.85:
-            return D
+            return rng.choice(DRAINS) if rng.random() < 0.4 else D
         if r < 0.95:
             return T
         return K
@@ -255,13 +263,13 @@ def gen_random(rng, profile):
             parked.remove(k)
             acts.append(("rel", k))
         elif r < 0.62 + wd:
-            acts.append(("do", D))
+            acts.append(("do", rng.choice(DRAINS) if rng.random() < 0.4 else D))
         elif r < 0.62 + wd + 0.04:
             acts.append(("do", T))
         elif r < 0.62 + wd + 0.06:
             acts.append(("do", K))
         else:
-            acts.append(("run",))
+            acts.append(("tick",) if rng.random() < 0.15 else ("run",))
     rng.shuffle(parked)
     for k in parked:
         if rng.random() < 0.3:
@@ -286,7 +294,7 @@ def gen_remote(rng):
         return pid[0]
 
     def msg(depth=0):
-        flags = rng.choice(["", "", "", "1", "2", "5"])
+        flags = rng.choice(["", "", "", "1", "2", "5", "r"])
         r = rng.random()
         if r < 0.25:
             flags += "n"
@@ -420,6 +428,11 @@ CORPUS = [
     # seeded C02-6 family: serialized Cast / Call with dropped receiver / Call with waiting caller
     [("do", S(1, "s")), ("do", S(2, "c")), ("do", S(3, "q", [], [S(4, "c")])), ("do", S(5)), ("run",),
      ("do", S(6, "c")), ("run",)],
+    # coverage audit: DerivedActorRef (d) and typed registry lookup (r) as send entry points, right and wrong type;
+    # drain through supervisor.drain_children / drain_and_wait(Some) / drain_and_wait(None)
+    [("do", S(1, "d")), ("do", S(2, "wd")), ("do", S(3, "r")), ("do", S(4, "wr")), ("run",), ("do", Dc), ("do", S(5, "d")),
+     ("do", S(6, "r")), ("run",), ("do", S(7, "r")), ("do", S(8, "wr")), ("do", S(9, "d")), ("run",)],
+    [("do", S(1)), ("start", S(2, "g")), ("do", Dt), ("do", Dw), ("tick",), ("rel", 0), ("run",), ("do", Dc), ("run",)],
     # drain while a sender is parked, actor runs in between, then release
     [("do", S(1)), ("start", S(2, "g")), ("do", D), ("run",), ("do", S(3)), ("rel", 0), ("run",), ("do", D), ("run",)],
 ]
@@ -461,7 +474,15 @@ def run_scenarios(chk, build, scenarios, tag):
         r["c02"] = t[2] == "true"
         r["model_complete"] = t[3] == "true"
         r["model_t"] = mark_nonser(t[4], r["acts"])
+        if any(c.get("v") == "c" for a in r["acts"] if a[0] in ("do", "start") for c in calls_in(a[1])):
+            # supervisor.drain_children() reports no result: the ok flag of EDrainEnd is not observable
+            r["model_t"], r["impl_t"] = drain_flags_true(r["model_t"]), drain_flags_true(r["impl_t"])
     return res
+
+
+def drain_flags_true(view):
+    log = [("EDrainEnd", "true") if isinstance(e, tuple) and e[0] == "EDrainEnd" else e for e in view[1]]
+    return ("tuple", log, view[2])
 
 
 def mark_nonser(view, acts):
